@@ -27,7 +27,7 @@ COMPONENTS = {"real": REAL_BASE + ["LAN.send/_connect/_disconnect/authenticate r
 E = 1.0 / 1024
 DELAYS = [0.05, 1.0, 2 - E, 2.0, 2 + E, 2.5, 4 - E, 4 + E, 5.9, None]
 FAULTS_DATA = ["timing", "drop_all", "garbage_random", "garbage_marker", "garbage_trunc", "fin_wait", "rst_wait",
-               "fin_idle", "refuse", "hang", "cancel", "accept_close"]
+               "fin_idle", "refuse", "hang", "cancel", "accept_close", "accept_reset"]
 FAULTS_V3 = ["error_packet", "hs_drop_all", "hs_drop_some", "hs_error", "hs_garbage_marker", "hs_garbage_random",
              "hs_close", "hs_late"]
 
@@ -295,6 +295,10 @@ def gen_fault(rng, version, kind=None, first=True):
     elif kind == "accept_close":
         fx["pre_close"] = True
         fx["conn"] = [["accept_close", E]]
+    elif kind == "accept_reset":
+        # the peer resets the connection the instant it is established (no peer name available any more)
+        fx["pre_close"] = True
+        fx["conn"] = [["accept_reset", E]]
     elif kind == "cancel":
         fx["cancel"] = rng.choice([E / 2, E, 2 * E, 0.01, 0.5, 1.0 + E, 1.5, 2.0, 2.5, 4.5])
         if rng.random() < 0.6:
